@@ -144,6 +144,17 @@ def build_traces(path, tier, seed):
             mn = pc2_.get_peak_array_indices(arg, ptype='min')
             allp, _, _, co, cp = impl(arg)
             x = np.asarray(arg, dtype=float)
+        if tid % 12 == 9 and n < 3000:
+            # plateau-free counts over the full range of (unsigned) narrow integer types, for the cleaned-array entry point below
+            dt_ = [np.int8, np.uint8, np.int16, np.uint16][int(rng.integers(4))]
+            ii = np.iinfo(dt_)
+            xi_ = rng.integers(ii.min, ii.max + 1, size=n)
+            xi_ = xi_[np.insert(np.diff(xi_) != 0, 0, True)]
+            if len(xi_) >= 2 and not np.all(xi_ == xi_[0]):
+                arg = xi_.astype(dt_)
+                x = np.asarray(arg, dtype=float)
+                n = len(x)
+                allp, mx, mn, co, cp = impl(arg)
         if tid % 6 == 3 and not np.any(np.diff(np.asarray(arg, dtype=float)) == 0):
             from eqsig.fns import peaks_and_crossings as pc_
             allp = pc_.determine_indices_of_peaks_for_cleaned_array(arg)            # plateau-free: the cleaned-array entry point
